@@ -14,6 +14,9 @@ package region
 // and validated by TLC (Trace_RegionClient: OwnResponse, OwnException).
 
 import (
+	"github.com/tsuna/gohbase/hrpc"
+	"runtime"
+	"runtime/debug"
 	"context"
 	"fmt"
 	"math/rand"
@@ -122,6 +125,67 @@ func TestVerifC02(t *testing.T) {
 			rep.Distinct++
 		}
 	}
+
+	// ---- P. the batch objects are pooled across connections. A connection that dies while its batcher is between starting a
+	// flush and registering the multi (its write then fails and the batcher itself completes the calls) must leave the pool in
+	// a state in which the callers of ANOTHER, healthy connection still get their own responses: right afterwards a second
+	// connection has one multi in flight while its batcher fills the next one. (The garbage collector empties sync.Pool, and
+	// pools are per P: both are pinned for this class only.)
+	oldGC := debug.SetGCPercent(-1)
+	oldP := runtime.GOMAXPROCS(1)
+	for k := 0; k < 12; k++ {
+		name := fmt.Sprintf("P/%d/connection-closed-while-the-batcher-serialises-its-multi", k)
+		synctest.Test(t, func(t *testing.T) {
+			env := newRCEnv(rcOpts{queueSize: 2, flushInterval: time.Millisecond})
+			c1 := env.newCall(fmt.Sprintf("p%02d", k), "get", true)
+			serialising, goOn := make(chan struct{}), make(chan struct{})
+			c1.call = &c03gatedGet{Get: c1.call.(*hrpc.Get), gate: func() { close(serialising); <-goOn }}
+			env.goQueue(c1)
+			<-serialising // the batcher is inside toProto: past the done check, not yet registered
+			env.c.Close() // runs completely: nothing is registered yet
+			close(goOn)   // the batcher registers, its write fails on the closed socket, it completes the call itself
+			rcSettle()
+			env.quiesce()
+			o.flush(name, env)
+			env.finish()
+			// the healthy connection
+			name2 := name + "/then-a-healthy-connection"
+			env2 := newRCEnv(rcOpts{queueSize: 2, flushInterval: time.Hour})
+			var cs []*rcCall
+			for i, r := range []string{"a1", "n1", "a2", "n2"} {
+				cs = append(cs, env2.newCall(fmt.Sprintf("%s%02d", r, k), []string{"get", "put"}[(i+k)%2], true))
+			}
+			env2.goQueue(cs[0])
+			env2.goQueue(cs[1])
+			rcSettle()
+			var reqs []*verifsim.Request
+			take := func() {
+				select {
+				case r := <-env2.reqs:
+					reqs = append(reqs, r)
+				default:
+				}
+			}
+			take() // first multi in flight
+			env2.goQueue(cs[2])
+			env2.goQueue(cs[3])
+			rcSettle()
+			take() // second multi in flight
+			for _, r := range reqs {
+				env2.respondMulti(r, multiPlan{ncells: func(row string) int { return 1 }})
+				rcSettle()
+			}
+			env2.quiesce()
+			if p := env2.pendingLive(); len(p) > 0 && !env2.isDone() {
+				rep.bad("caller-never-answered", "%s: %d callers got no result although every request was answered: %v", name2, len(p), p)
+			}
+			o.flush(name2, env2)
+			env2.finish()
+		})
+		rep.Distinct++
+	}
+	runtime.GOMAXPROCS(oldP)
+	debug.SetGCPercent(oldGC)
 
 	// ---- B. concurrent callers, out-of-order answers
 	for k := 0; k < nrand; k++ {
